@@ -11,14 +11,150 @@ from .. import attach, gen, problems
 from ..monitors.solver import SolverMonitor
 from ..util import maxabs, rng_for
 
+DRAWN = {}  # material parameters as drawn by umat_for (the caller's numbers)
+
+# ---------------------------------------------------------------------------------------------------------------------
+# references of the check itself (fourth audit, mirrored oracles): the expected prescribed unknowns / values come from the
+# arguments the workload handed to the load case (not from Boundary.dof / Boundary.value / dof.apply output), and for the
+# 8-node hexahedron with a Neo-Hooke (optionally Ogden-Roxburgh softened) solid and a dead body force the residual and the
+# history variable are evaluated by the check: own trilinear shape functions, own 2x2x2 Gauss rule, own stress formula.
+# ---------------------------------------------------------------------------------------------------------------------
+HEX = np.array([[-1, -1, -1], [1, -1, -1], [1, 1, -1], [-1, 1, -1], [-1, -1, 1], [1, -1, 1], [1, 1, 1], [-1, 1, 1]], float)
+
+
+def expected_uniaxial(mesh, L, d, move, clamped, sym, extra=()):
+    """(unknowns, values) of the documented uniaxial load case along axis 0 on the box [0, L], first field with d components
+    per point (unknown = d * point + component): symmetry plane i (X_i = 0) fixes component i; without the symmetry plane 0
+    the left face is fixed in 0; a clamped right face (and left face without symmetry 0) is fixed in the transversal
+    components; the right face carries move in component 0.  extra: (offset, mask, value) of boundaries on further fields
+    with one component per point."""
+    X = np.asarray(mesh.points, float)
+    want = {}
+    left, right = np.isclose(X[:, 0], 0.0), np.isclose(X[:, 0], L[0])
+    for i in range(d):
+        if sym[i]:
+            for p in np.where(np.isclose(X[:, i], 0.0))[0]:
+                want[d * int(p) + i] = 0.0
+    if not sym[0]:
+        for p in np.where(left)[0]:
+            want[d * int(p)] = 0.0
+    if clamped:
+        for p in np.where(right | left if not sym[0] else right)[0]:
+            for c in range(1, d):
+                want[d * int(p) + c] = 0.0
+    for p in np.where(right)[0]:
+        want[d * int(p)] = float(move)
+    for offset, mask, value in extra:
+        for p in np.where(mask)[0]:
+            want[int(offset) + int(p)] = float(value)
+    idx = np.array(sorted(want), int)
+    return idx, np.array([want[i] for i in idx], float)
+
+
+def prescribed_as_requested(run, x, want, scale, label, lc=None, values=True):
+    """The returned field carries the values the caller asked for on the unknowns the caller asked for (own map of the load
+    case arguments); with lc: the sets handed to Newton are that set and its complement (disjoint and covering)."""
+    idx, val = want
+    xv = np.concatenate([np.asarray(f.values, float).ravel() for f in x.fields])
+    m = "newton.requested"
+    if lc is not None:
+        same = np.array_equal(np.sort(np.asarray(lc["dof0"]).ravel()), idx)
+        comp = np.array_equal(np.sort(np.asarray(lc["dof1"]).ravel()), np.setdiff1d(np.arange(xv.size), idx))
+        if same and comp:
+            run.ok(m, unit="requested:sets", config=(label, "sets"))
+        else:
+            run.fail(m, "clause=prescribed-set-as-requested", "the prescribed / free unknowns of the load case are not the documented set of the requested "
+                     "load case and its complement (prescribed equal: %s, free = complement: %s)" % (same, comp))
+    if not values:
+        return
+    # u0 + (ext0 - u0) is exact for zero targets and within one unit in the last place of the larger of the values involved
+    tol = 1e-14 * np.maximum(np.abs(val), scale)
+    err = np.abs(xv[idx] - val)
+    worst = int(np.argmax(err - tol)) if len(idx) else 0
+    run.compare(m, "clause=requested-values-carried", float(err[worst]) if len(idx) else 0.0, float(tol[worst]) if len(idx) else 1.0,
+                "the returned field does not carry the value the caller requested (load case arguments) on a prescribed unknown",
+                unit="requested:values", config=(label, "requested"), detail={"unknown": int(idx[worst]) if len(idx) else -1, "requested": float(val[worst]) if len(idx) else 0.0})
+
+
+def hex8_residual(mesh, u, mu, bulk, b=None, softening=None):
+    """(residual vector, strain energy density per cell and quadrature point (c, q)) of a Neo-Hooke solid
+    W = mu/2 (J^(-2/3) tr C - 3) + bulk/2 (J - 1)^2 on 8-node hexahedra with a dead body force b per undeformed volume:
+    r_ai = sum_q (dh_a/dX_j P_ij - h_a b_i) dV.  softening(W) -> eta scales the stress (pseudo-elastic models)."""
+    g = HEX / np.sqrt(3.0)  # 2x2x2 Gauss points, unit weights
+    cells = np.asarray(mesh.cells)
+    X = np.asarray(mesh.points, float)[cells]
+    U = np.asarray(u, float)[cells]
+    h = np.prod(1 + HEX[None, :, :] * g[:, None, :], axis=2) / 8  # (q, a)
+    dh = np.empty((8, 8, 3))
+    for k in range(3):
+        i, j = [n for n in range(3) if n != k]
+        dh[:, :, k] = HEX[None, :, k] * (1 + HEX[None, :, i] * g[:, None, i]) * (1 + HEX[None, :, j] * g[:, None, j]) / 8
+    Jm = np.einsum("cai,qak->cqik", X, dh)
+    dV = np.linalg.det(Jm)
+    dhdX = np.einsum("qak,cqkj->cqaj", dh, np.linalg.inv(Jm))
+    F = np.eye(3) + np.einsum("cai,cqaj->cqij", U, dhdX)
+    J = np.linalg.det(F)
+    trC = np.einsum("cqij,cqij->cq", F, F)
+    FiT = np.transpose(np.linalg.inv(F), (0, 1, 3, 2))
+    P = mu * (J ** (-2 / 3))[..., None, None] * (F - (trC / 3)[..., None, None] * FiT) + (bulk * (J - 1) * J)[..., None, None] * FiT
+    W = mu / 2 * (J ** (-2 / 3) * trC - 3) + bulk / 2 * (J - 1) ** 2
+    if softening is not None:
+        P = softening(W)[..., None, None] * P
+    re = np.einsum("cqaj,cqij,cq->cai", dhdX, P, dV)
+    if b is not None:
+        re = re - np.einsum("qa,i,cq->cai", h, np.asarray(b, float), dV)
+    r = np.zeros(np.asarray(u).shape)
+    np.add.at(r, cells, re)
+    return r.ravel(), W
+
+
+def own_equilibrium(run, res, r, want, tol, delta, label):
+    """The property's criterion with the check's own residual r on the check's own sets, and the reported residual vector.
+    delta: absolute round-off of a nodal force (stiffness scale x area of the body x 5e-15; measured at most 4e-17 x that product over
+    the seeds).  An unloaded state has no reactions: the documented eps = 1e-3 in the denominator amplifies that round-off,
+    which is why the floor of the criterion is delta over the denominator and not a constant."""
+    idx = want[0]
+    free = np.setdiff1d(np.arange(r.size), idx)
+    den = 1e-3 + float(np.linalg.norm(r[idx]))
+    crit = float(np.linalg.norm(r[free])) / den
+    run.compare("newton.own-residual", "clause=own-residual-below-tolerance", crit, 1.01 * tol + delta * np.sqrt(len(free)) / den,
+                "success reported, but the residual evaluated by the check itself (own shape functions, quadrature and stress) on the free unknowns "
+                "exceeds the tolerance relative to the reactions", unit="own-residual:criterion", config=(label, "own-residual"))
+    if getattr(res, "fun", None) is not None and np.asarray(res.fun).size == r.size:
+        run.compare("newton.own-fun", "clause=reported-fun-is-own-residual", maxabs(np.asarray(res.fun, float).ravel() - r), delta,
+                    "the residual vector of the result is not the residual evaluated by the check itself at the returned field",
+                    unit="own-residual:fun", config=(label, "own-fun"))
+
+
+def or_softening(par, Wmax):
+    """Ogden-Roxburgh: eta = 1 - erf((Wmax - W) / (m + beta Wmax)) / r with the history maximum Wmax of W."""
+    from scipy.special import erf
+    return lambda W: 1 - erf((np.maximum(Wmax, W) - W) / (par["m"] + par["beta"] * np.maximum(Wmax, W))) / par["r"]
+
+
+def history_committed(run, body, Wmax, wtol, label):
+    """After a successful solve the committed history variable of an Ogden-Roxburgh body is the maximum of the strain energy
+    density over the converged states so far (closed form from the check's own deformation gradients); after a failed solve it
+    still is.  Library layout: (1, q, c).  wtol: absolute round-off of an energy density (J^(-2/3) tr C - 3 cancels: 1e-13 x the
+    stiffness scale, measured 1e-16 x)."""
+    sv = np.asarray(body.results.statevars, float)
+    got = sv[0] if sv.ndim == 3 else sv.reshape(Wmax.T.shape)
+    run.compare("newton.own-history", "clause=committed-history-is-max-of-converged-energies[%s]" % label, maxabs(got - Wmax.T), wtol,
+                "the committed history variable (maximum strain energy density) of the body is not the maximum over the converged states, evaluated by the "
+                "check itself (%s)" % label, unit="own-history:" + label, config=("own-history", label))
+
 
 def umat_for(rng, name):
     import felupe as fem
     if name == "NeoHooke":
-        return fem.NeoHooke(mu=float(rng.uniform(0.5, 2)), bulk=float(rng.uniform(2, 8)))
+        # the drawn parameters are kept for the check's own residual (not read back from the material object)
+        par = dict(mu=float(rng.uniform(0.5, 2)), bulk=float(rng.uniform(2, 8)))
+        DRAWN["NeoHooke"] = par
+        return fem.NeoHooke(**par)
     if name == "NeoHookeCompressible":
         return fem.NeoHookeCompressible(mu=1.0, lmbda=float(rng.uniform(1, 4)))
     if name == "OgdenRoxburgh":
+        DRAWN["OgdenRoxburgh"] = dict(mu=1.0, bulk=5.0, r=3.0, m=1.0, beta=0.1)
         return fem.OgdenRoxburgh(fem.NeoHooke(mu=1.0, bulk=5.0), r=3.0, m=1.0, beta=0.1)
     if name == "LinearElastic":
         return fem.LinearElastic(E=float(rng.uniform(1, 3)), nu=float(rng.uniform(0.1, 0.4)))
@@ -28,7 +164,13 @@ def umat_for(rng, name):
 
 
 def build(rng, kind, fam, mat, extras=()):
-    """(field, boundaries, loadcase, items, mesh)"""
+    """(field, boundaries, loadcase, items, mesh) - also used by other checks: the return value stays this 5-tuple"""
+    return build_shadowed(rng, kind, fam, mat, extras)[:5]
+
+
+def build_shadowed(rng, kind, fam, mat, extras=()):
+    """(field, boundaries, loadcase, items, mesh, shadow): shadow holds what the caller requested (lengths, move, clamped, sym,
+    boundaries on further fields, body force) for the references of C07's own cases"""
     import felupe as fem
     mesh, L = problems.box_mesh(fam, rng)
     if kind == "axisymmetric":
@@ -36,7 +178,10 @@ def build(rng, kind, fam, mat, extras=()):
     fkind = {"3d": "3d", "planestrain": "planestrain", "axisymmetric": "axisymmetric", "mixed": "mixed", "ni": "3d" if mesh.dim == 3 else "planestrain"}[kind]
     field = problems.field_for(fam, mesh, fkind)
     move = float(rng.uniform(0.05, 0.25)) * L[0] * (1 if rng.integers(0, 2) else -0.5)
-    bounds, lc = fem.dof.uniaxial(field, clamped=bool(rng.integers(0, 2)), move=move, axis=0, sym=(False, True, True)[: mesh.dim] + (True,) * (3 - mesh.dim))
+    clamped = bool(rng.integers(0, 2))
+    sym = (False, True, True)[: mesh.dim] + (True,) * (3 - mesh.dim)
+    bounds, lc = fem.dof.uniaxial(field, clamped=clamped, move=move, axis=0, sym=sym)
+    shadow = dict(L=L, d=mesh.dim, move=move, clamped=clamped, sym=sym, extra=(), force=None)
     if kind == "mixed":
         base = fem.NeoHooke(mu=1.0, bulk=float(rng.uniform(5, 50)))
         body = fem.SolidBody(fem.ThreeFieldVariation(base) if rng.integers(0, 2) else fem.NearlyIncompressible(fem.NeoHooke(mu=1.0), bulk=20.0), field)
@@ -49,6 +194,7 @@ def build(rng, kind, fam, mat, extras=()):
     if "force" in extras:
         v = rng.uniform(-0.3, 0.3, d)
         items.append(fem.SolidBodyForce(field, values=np.append(v, 0.0) if fkind == "axisymmetric" else v, scale=1.0))
+        shadow["force"] = 1.0 * v
     if "pointload" in extras:
         free = np.setdiff1d(np.arange(mesh.npoints), np.unique(np.concatenate([b.points for b in bounds.values()])))
         items.append(fem.PointLoad(field, free[:2], values=rng.uniform(-0.02, 0.02, (1, d))))
@@ -68,11 +214,14 @@ def build(rng, kind, fam, mat, extras=()):
         mask[int(rng.integers(0, len(mask)))] = True
         bounds = dict(bounds)
         # in front of or behind the displacement boundaries (the order of the dictionary must not matter)
-        extra = {"swell": fem.Boundary(Jf, mask=mask, value=float(rng.uniform(1.01, 1.05)))}
+        swell = float(rng.uniform(1.01, 1.05))
+        extra = {"swell": fem.Boundary(Jf, mask=mask, value=swell)}
+        # third field, one unknown per point, behind the displacement and the pressure unknowns
+        shadow["extra"] = ((field.fields[0].values.size + field.fields[1].values.size, mask.copy(), swell),)
         bounds = {**bounds, **extra} if "last" in extras else {**extra, **bounds}
         dof0, dof1 = fem.dof.partition(field, bounds)
         lc = dict(dof0=dof0, dof1=dof1, ext0=fem.dof.apply(field, bounds, dof0))
-    return field, bounds, lc, items, mesh
+    return field, bounds, lc, items, mesh, shadow
 
 
 def boundaries_honoured(run, x, field, bounds, label):
@@ -90,14 +239,50 @@ def boundaries_honoured(run, x, field, bounds, label):
                     unit="success:boundary-honoured:field%d" % idx, config=(label, "boundary-field", idx))
 
 
+class OwnHex8:
+    """The check's own model of one hex8 Neo-Hooke / Ogden-Roxburgh body (+ dead body force) over a sequence of solves: own
+    residual at every returned field, own history maximum of the strain energy density."""
+
+    def __init__(self, mesh, mat, par, force=None, residual=True):
+        self.mesh, self.mat, self.par, self.force, self.residual = mesh, mat, par, force, residual
+        self.Wmax = np.zeros((len(mesh.cells), 8))  # a fresh body has no history
+        stiff = par["mu"] + par["bulk"]
+        self.delta = 5e-15 * stiff * float(np.max(np.ptp(np.asarray(mesh.points, float), axis=0))) ** 2
+        self.wtol = 1e-13 * stiff
+
+    def judge(self, run, res, body, want, tol, label):
+        soft = or_softening(self.par, self.Wmax) if self.mat == "OgdenRoxburgh" else None
+        r, W = hex8_residual(self.mesh, res.x[0].values, self.par["mu"], self.par["bulk"], b=self.force, softening=soft)
+        if self.residual:
+            own_equilibrium(run, res, r, want, tol, self.delta, label)
+        if self.mat == "OgdenRoxburgh":
+            self.Wmax = np.maximum(self.Wmax, W)
+            history_committed(run, body, self.Wmax, self.wtol, "after-success")
+
+
 def case_success(kind, fam, mat, extras, rep):
     def fn(run):
         import felupe as fem
         rng = rng_for(run.seed, "C07", kind, fam, mat, "+".join(extras), rep)
         mon = SolverMonitor(run).attach()
         try:
-            field, bounds, lc, items, mesh = build(rng, kind, fam, mat, extras)
+            field, bounds, lc, items, mesh, shadow = build_shadowed(rng, kind, fam, mat, extras)
+            own = None
+            if kind == "3d" and fam == "hexahedron" and mat in ("NeoHooke", "OgdenRoxburgh"):
+                # follower pressure is not part of the own residual: with it only the history clause is judged
+                own = OwnHex8(mesh, mat, DRAWN[mat], force=shadow["force"], residual="pressure" not in extras)
+
+            def judge(r, move, leg, lc_=None):
+                """own references after a successful solve towards the prescribed value move"""
+                want = expected_uniaxial(mesh, shadow["L"], shadow["d"], move, shadow["clamped"], shadow["sym"], shadow["extra"])
+                prescribed_as_requested(run, r.x, want, 1.3 * abs(shadow["move"]), (kind, leg), lc_)
+                if own is not None:
+                    own.judge(run, r, items[0], want, tol, (fam, mat, leg))
             tol = float(10 ** rng.uniform(-12, -4))
+            # the sets handed to Newton are the requested prescribed unknowns and their complement: judged before the solve (an
+            # unknown in neither set makes the solve fail in arbitrary ways)
+            prescribed_as_requested(run, field, expected_uniaxial(mesh, shadow["L"], shadow["d"], shadow["move"], shadow["clamped"], shadow["sym"], shadow["extra"]),
+                                    0.0, (kind, "before"), lc, values=False)
             try:
                 res = fem.newtonrhapson(items=items, tol=tol, maxiter=16, verbose=False, **lc)
             except ValueError as exc:
@@ -110,11 +295,12 @@ def case_success(kind, fam, mat, extras, rep):
                 raise
             run.units["success:%s" % kind] += 1
             boundaries_honoured(run, res.x, field, bounds, kind)
+            judge(res, shadow["move"], "first", lc)
             for e in extras:
                 run.units["success:with-" + e] += 1
             # continuation from the converged state
             try:
-                continuation(run, fem, rep, field, bounds, items, tol, res)
+                continuation(run, fem, rep, field, bounds, items, tol, res, shadow, judge)
             except ValueError as exc:
                 if "not converged" not in str(exc):
                     raise
@@ -126,19 +312,21 @@ def case_success(kind, fam, mat, extras, rep):
     return fn
 
 
-def continuation(run, fem, rep, field, bounds, items, tol, res):
-    """Further solves from the converged state: a larger prescribed value, then back to exactly zero."""
+def continuation(run, fem, rep, field, bounds, items, tol, res, shadow, judge):
+    """Further solves from the converged state: a larger prescribed value, then back to exactly zero.  The targets are the
+    check's own numbers (not Boundary.value), and every returned field is compared with them (judge)."""
     if rep % 2 == 0:
         b = bounds["move"]
-        b.update(b.value * 1.3)
+        target = shadow["move"] * 1.3
+        b.update(target)
         dof0, dof1 = fem.dof.partition(field, bounds)
         ext0 = fem.dof.apply(field, bounds, dof0)
         style = (rep // 2 + len(items) + field[0].region.mesh.ncells) % 3  # the quick tier has rep = 0 only: the problem decides as well
         if style == 0:
-            fem.newtonrhapson(items=items, dof0=dof0, dof1=dof1, ext0=ext0, tol=tol, verbose=False)
+            r2 = fem.newtonrhapson(items=items, dof0=dof0, dof1=dof1, ext0=ext0, tol=tol, verbose=False)
             run.units["success:continuation:items-only"] += 1
         elif style == 1:
-            fem.tools.newtonrhapson(x0=res.x, items=items, dof0=dof0, dof1=dof1, ext0=ext0, tol=tol, verbose=False)
+            r2 = fem.tools.newtonrhapson(x0=res.x, items=items, dof0=dof0, dof1=dof1, ext0=ext0, tol=tol, verbose=False)
             run.units["success:continuation:x0=result"] += 1
         else:
             # the documented multi-body form: a top-level container of its own, handed to the items on every evaluation
@@ -149,13 +337,18 @@ def continuation(run, fem, rep, field, bounds, items, tol, res):
             for a, b_ in zip(r2.x.fields, field.fields):
                 b_.values[:] = a.values  # the solves that follow start from the items' own container
         run.units["success:continuation"] += 1
-        # back to exactly zero prescribed values from a state with non-zero values on the prescribed unknowns
+        judge(r2, target, "continuation", dict(dof0=dof0, dof1=dof1))
+        run.units["requested:continuation"] += 1
+        # back to exactly zero prescribed values from a state with non-zero values on the prescribed unknowns; whether all requested
+        # values are zero is decided from the check's own map (not from the ext0 vector the library built)
         b.update(0.0)
         dof0, dof1 = fem.dof.partition(field, bounds)
         ext0 = fem.dof.apply(field, bounds, dof0)
-        if not np.any(ext0):
-            fem.newtonrhapson(items=items, dof0=dof0, dof1=dof1, ext0=ext0, tol=tol, verbose=False)
+        if not np.any(expected_uniaxial(field[0].region.mesh, shadow["L"], shadow["d"], 0.0, shadow["clamped"], shadow["sym"], shadow["extra"])[1]):
+            r3 = fem.newtonrhapson(items=items, dof0=dof0, dof1=dof1, ext0=ext0, tol=tol, verbose=False)
             run.units["success:unload-to-zero"] += 1
+            judge(r3, 0.0, "unload", dict(dof0=dof0, dof1=dof1))
+            run.units["requested:unload-to-zero"] += 1
 
 
 def case_styles(rep):
@@ -174,8 +367,10 @@ def case_styles(rep):
             d = mesh.dim
             # (a) ext0 omitted: the prescribed unknowns go to zero, also from a start with non-zero values there
             field = problems.field_for(fam, mesh, kind)
-            body = fem.SolidBody(fem.NeoHooke(mu=1.0, bulk=float(rng.uniform(2, 6))), field)
-            grav = fem.SolidBodyForce(field, values=rng.uniform(-0.05, 0.05, d), scale=float(rng.uniform(0.5, 2)))
+            bulk_a = float(rng.uniform(2, 6))
+            body = fem.SolidBody(fem.NeoHooke(mu=1.0, bulk=bulk_a), field)
+            gval, gscale = rng.uniform(-0.05, 0.05, d), float(rng.uniform(0.5, 2))
+            grav = fem.SolidBodyForce(field, values=gval.copy(), scale=gscale)
             fix = {"fix": fem.Boundary(field[0], fx=0.0)}
             dof0, dof1 = fem.dof.partition(field, fix)
             field[0].values[:] = 0.01 * rng.standard_normal(field[0].values.shape)
@@ -187,6 +382,15 @@ def case_styles(rep):
             r = sum((it.assemble.multiplier or 1.0) * it.assemble.vector(res.x).toarray().ravel() for it in (fem.SolidBody(body.umat, res.x), grav))
             run.compare(m, "clause=no-ext0-equilibrium", float(np.linalg.norm(r[dof1]) / (1e-3 + np.linalg.norm(r[dof0]))) / tol, 1.01,
                         "newtonrhapson without ext0: returned state is not in equilibrium on the free unknowns", unit="styles:no-ext0")
+            # the same two statements from the check's own references: the unknowns of the requested plane X0 = 0 (all components),
+            # and for the hexahedron the own residual with the body force scaled as requested (scale x values per undeformed volume)
+            fixed = (d * np.where(np.isclose(mesh.points[:, 0], 0.0))[0][:, None] + np.arange(d)).ravel()
+            want = (fixed, np.zeros(len(fixed)))
+            prescribed_as_requested(run, res.x, want, 0.01, ("styles", "no-ext0"), dict(dof0=dof0, dof1=dof1))
+            if fam == "hexahedron":
+                own = OwnHex8(mesh, "NeoHooke", dict(mu=1.0, bulk=bulk_a), force=gscale * gval)
+                own.judge(run, res, body, want, tol, (fam, "styles", "no-ext0+scaled-force"))
+                run.units["own-residual:scaled-force"] += 1
             # (b) a multi-point constraint in the item list (3D only): equilibrium of the sum of all items
             if d == 3:
                 mesh2 = mesh.copy()
@@ -206,6 +410,9 @@ def case_styles(rep):
                 ux = res.x[0].values
                 run.compare(m, "clause=constraint-transmits-the-motion", float(np.max(np.abs(ux[face, 0] - ux[c, 0]))) / (0.1 * L[0]), 1e-2,
                             "the constrained face does not follow the centre point (penalty 1e3)", unit="styles:constraint")
+                # the centre point itself carries the requested vector (own number, not the ext0 the library built)
+                run.compare(m, "clause=constraint-centre-point-carries-the-requested-value", maxabs(ux[c] - np.array([0.1 * L[0], 0.0, 0.0])), 1e-14 * 0.1 * L[0],
+                            "the centre point of the constraint does not carry the requested prescribed vector", unit="styles:constraint")
             # (c) a linear problem must be allowed to converge at the last permitted iteration
             fl = problems.field_for(fam, mesh, kind)
             bl, lcl = fem.dof.uniaxial(fl, clamped=True, move=float(rng.uniform(-0.1, 0.1)))
@@ -238,6 +445,11 @@ def case_styles(rep):
             xo = np.concatenate([f.values.ravel() for f in ro.x.fields])
             run.compare(m, "clause=no-items-prescribed-values", float(np.max(np.abs(xo[lco["dof0"]] - lco["ext0"]))), 1e-14,
                         "newtonrhapson(x0, args=(umat,)): prescribed values not carried", unit="styles:no-items", config=("no-items", fam))
+            # the same from the requested load case (clamped, move, default sym=True) and, for the hexahedron, the own residual
+            want = expected_uniaxial(mesh, L, d, 0.1 * L[0], True, (True, True, True))
+            prescribed_as_requested(run, ro.x, want, 0.1 * L[0], ("styles", "no-items"), lco)
+            if fam == "hexahedron":
+                OwnHex8(mesh, "NeoHooke", dict(mu=1.0, bulk=3.0)).judge(run, ro, None, want, 1e-9, (fam, "styles", "no-items"))
             fr = fem.SolidBody(umo, ro.x).assemble.vector(ro.x).toarray().ravel()
             run.compare(m, "clause=no-items-equilibrium", float(np.linalg.norm(fr[lco["dof1"]]) / (1e-3 + np.linalg.norm(fr[lco["dof0"]]))) / 1e-9, 1.01,
                         "newtonrhapson(x0, args=(umat,)): independently assembled residual exceeds the tolerance", unit="styles:no-items")
@@ -284,11 +496,22 @@ def case_linear(fam, rep):
             body = fem.SolidBody(umat, field)
             load = fem.SolidBodyForce(field, values=rng.uniform(-0.1, 0.1, mesh.dim))
             res = fem.newtonrhapson(items=[body, load], verbose=False, tol=1e-8, **lc)
+            # the returned field carries what was requested (own map of clamped / move / default sym=True; the overlapping boundary
+            # requests the same value on a subset); judged now: the result shares its arrays with the field of the next solve
+            prescribed_as_requested(run, res.x, expected_uniaxial(mesh, L, mesh.dim, mv, True, (True, True, True)), abs(mv), ("linear", fam, "load"), lc)
             # unloading a linear problem back to zero prescribed values is linear as well
             bounds["move"].update(0.0)
             dof0, dof1 = fem.dof.partition(field, bounds)
             ext0 = fem.dof.apply(field, bounds, dof0)
             res0 = fem.newtonrhapson(items=[body, load], dof0=dof0, dof1=dof1, ext0=ext0, verbose=False, tol=1e-8)
+            # exactly zero after the unloading (own map).  The overlapping boundary "edge" still requests mv on its unknowns (a
+            # contradictory request of this workload): the values there are not judged, the sets are
+            idx, val = expected_uniaxial(mesh, L, mesh.dim, 0.0, True, (True, True, True))
+            edge = mesh.dim * np.where(np.isclose(mesh.points[:, 0], L[0]) & np.isclose(mesh.points[:, 1], 0.0))[0]
+            keep = ~np.isin(idx, edge)
+            prescribed_as_requested(run, res0.x, (idx, val), abs(mv), ("linear", fam, "unload-sets"), dict(dof0=dof0, dof1=dof1), values=False)
+            prescribed_as_requested(run, res0.x, (idx[keep], val[keep]), abs(mv), ("linear", fam, "unload"))
+            run.units["requested:linear-unload"] += 1
             if res0.iterations == 1:
                 run.ok("newton.linear", unit="linear:unload-one-iteration", config=("linear-unload", fam))
             else:
@@ -394,7 +617,13 @@ def case_failure(mode, rep):
             run.units["failure:items=%d:%s" % (len(items), type(items[0]).__name__)] += 1
             # give the bodies a non-trivial committed history first
             bounds, lc = fem.dof.uniaxial(field, clamped=True, move=0.15 * L[0])
-            fem.newtonrhapson(items=items, verbose=False, **lc)
+            first = fem.newtonrhapson(items=items, verbose=False, **lc)
+            own = None
+            if fam == "hexahedron" and len(items) == 1:
+                # the check's own history: maximum strain energy density of the converged state (closed form from own deformation
+                # gradients); the failed solve below must leave exactly that
+                own = OwnHex8(mesh, "OgdenRoxburgh", DRAWN["OgdenRoxburgh"], residual=False)
+                own.judge(run, first, body, None, None, (fam, "failure", "first"))
             if mode == "maxiter":
                 bounds["move"].update(0.9 * L[0])
                 maxiter = int(rng.integers(1, 3))
@@ -408,6 +637,8 @@ def case_failure(mode, rep):
             except ValueError as e:
                 run.ok("newton.failure", unit="failure:" + mode, config=("failure", mode, fam),
                        sample={"failure": mode, "maxiter": maxiter, "raised": str(e).strip()[:60]})
+                if own is not None:
+                    history_committed(run, body, own.Wmax, own.wtol, "after-failure")
             else:
                 if not res.success:
                     pass  # the monitor already reported the return without convergence
@@ -427,7 +658,9 @@ def cases(tier, seed):
             ("axisymmetric", "quad", "NeoHookeCompressible", ("pressure",)), ("mixed", "hexahedron", "-", ()), ("mixed", "quad", "-", ("force",)),
             ("mixed", "hexahedron", "-", ("dualboundary",)), ("mixed", "quad", "-", ("dualboundary",)),
             ("mixed", "hexahedron", "-", ("dualboundary", "last")),
-            ("ni", "hexahedron", "-", ()), ("ni", "quad", "-", ("pointload",)), ("3d", "hexahedron27", "NeoHooke", ("force", "pointload"))]
+            ("ni", "hexahedron", "-", ()), ("ni", "quad", "-", ("pointload",)), ("3d", "hexahedron27", "NeoHooke", ("force", "pointload")),
+            # judged by the check's own residual and history as well (hex8, softening active on the way back to zero)
+            ("3d", "hexahedron", "OgdenRoxburgh", ("force",))]
     reps = 1 if tier == "quick" else 6
     for kind, fam, mat, extras in plan:
         for rep in range(reps):
@@ -450,12 +683,18 @@ SPEC = {
                        "styles:no-items", "styles:array-newton", "styles:array-newton-raises", "success:continuation", "success:unload-to-zero", "linear:unload-one-iteration", "success:prescribed-values",
                        "success:reported-residual", "success:reassembly", "success:reassembly-settled", "success:fun", "success:commit",
                        "solve:reduced-system", "solve:prescribed-increment", "linear:one-iteration", "linear:one-solve-counted", "linear:overlapping-boundaries", "solve:direct:without-r", "solve:direct:with-r", "solve:tools.solve", "success:reported-norm", "success:continuation:items-only", "success:continuation:x0=result", "success:continuation:x0=own-container", "failure:maxiter",
-                       "failure:no-commit", "failure:raises:ValueError", "failure:items=2:SolidBodyForce", "failure:items=2:SolidBody", "failure:items=1:SolidBody"],
+                       "failure:no-commit", "failure:raises:ValueError", "failure:items=2:SolidBodyForce", "failure:items=2:SolidBody", "failure:items=1:SolidBody",
+                       # fourth audit (references of the check itself): requested prescribed unknowns / values, own hex8 residual, own history
+                       "requested:sets", "requested:values", "requested:continuation", "requested:unload-to-zero", "requested:linear-unload",
+                       "own-residual:criterion", "own-residual:fun", "own-residual:scaled-force", "own-history:after-success", "own-history:after-failure"],
     "rule": ("boundary value problems on seeded interior-distorted box meshes (9 element families; 3D, plane strain, axisymmetric, mixed "
              "u/p/J, nearly-incompressible body; body force, point load, follower pressure), random tolerance 1e-12..1e-4, continuation "
              "from a converged state in both call styles, linear problems, infeasible jumps with maxiter 1..2 and inverting jumps (NaN); "
              "every Newton call is judged by the post-conditions; a configuration is distinct by (field kind, family, material, extras)"),
     "assumptions": ["the independent residual uses deep copies of the items taken before the call (pre-call committed state)",
+                    "expected prescribed unknowns / values are an own map of the load-case arguments (box [0, L], documented uniaxial case); for hex8 "
+                    "Neo-Hooke / Ogden-Roxburgh bodies with a dead body force the residual and the history maximum are evaluated by the check itself "
+                    "(own shape functions, 2x2x2 Gauss rule, closed-form stress and energy); other families / items rely on the library's item vectors",
                     "for the condensed nearly-incompressible body the re-assembled residual is evaluated at its settled state and bounded by 50 x tol"],
     "jobs": {"quick": 8, "thorough": 16},
 }
